@@ -25,6 +25,7 @@ import uuid
 from ..kernel import SRC, HarnessError
 
 PID = "C16"
+USES_GENERATOR = False
 LEVEL = "model_checking"
 RULE = ("laws: root dataclasses with 1 field of every type tree of depth<=2 (168) and 2 fields over T(1) x leaves, x 4 key-map variants {none, renamed, keyword-like, "
         "case-fold-colliding}, x instance menus (<=3 values per node), each on a pristine converter; history: all operation sequences of length<=3 over 12 "
